@@ -926,6 +926,144 @@ def rule_conics_delegate(run: Run, prog: Program) -> int:
     return n
 
 
+def _zero_mod(e: LP, rules: dict) -> bool:
+    """e == 0 modulo the relations atom**p = value: negative powers of the atoms are cleared first (the atoms are non-zero: norms, cosines)"""
+    for _ in range(4):
+        for atom in rules:
+            worst = 0
+            for mono in e.t:
+                for s_, ex in mono:
+                    if s_ == atom and ex < worst:
+                        worst = ex
+            if worst < 0:
+                e = e * LP.sym(atom).power(int(-worst))
+        e = e.rewrite(rules)
+    return e.is_zero()
+
+
+def rule_orthogonal(run: Run, prog: Program) -> int:
+    run.rule("E18.orth", "rotation(angle, axis), when its matrix can be read as a 3x3 table of polynomials in cos / sin of multiples of the angle and the axis "
+                         "coordinates: R^T R = I, det R = 1 and R a = a as polynomial identities modulo cos^2 + sin^2 = 1 and |a|^2 = norm(a)^2 - the first "
+                         "sentence of C08 about rotation(a, axis) itself, whatever formula is used")
+    from geolint import quadforms as qf
+
+    fn = prog.find_func("rotation")
+    if fn is None:
+        return 0
+    fn = prog.body_of(fn)
+    params = [a.arg for a in fn.node.args.args]
+    if len(params) < 2:
+        return 0
+    captured: dict = {}
+
+    def affine(args, kwargs):
+        captured["matrix"] = args[0] if args else kwargs.get("matrix")
+        captured["offset"] = args[1] if len(args) > 1 else kwargs.get("offset")
+        return qf.Opaque("transformation")
+
+    # the cross-product matrix written as a tensor diagram: every edge (Tensor(v), eps) contracts v with the next index of the Levi-Civita tensor
+    # (what an edge contracts is decided by E14; the entries of eps are the permutation signs)
+    class Eps(qf.SymObject):
+        def __init__(self, n):
+            self.n = n
+
+    class Vec(qf.SymObject):
+        def __init__(self, table):
+            self.array = table
+
+    class Diagram(qf.SymObject):
+        def __init__(self, edges):
+            self.edges = edges
+
+        def calculate(self):
+            eps = next((b for a_, b in self.edges if isinstance(b, Eps)), None)
+            vecs = [a_.array for a_, b in self.edges if isinstance(a_, Vec) and b is eps]
+            if eps is None or len(vecs) != len(self.edges) or any(v.shape != (eps.n,) for v in vecs):
+                raise qf.Unknown("diagram is not vectors contracted with one Levi-Civita tensor")
+            n, k = eps.n, len(vecs)
+            if k > n or n > 5:
+                raise qf.Unknown("more vectors than indices of the Levi-Civita tensor")
+            import itertools as _it
+
+            def sign(perm):
+                return -1 if sum(1 for i in range(len(perm)) for j in range(i + 1, len(perm)) if perm[i] > perm[j]) % 2 else 1
+            data = {}
+            for free in _it.product(range(n), repeat=n - k):
+                total = LP()
+                for bound in _it.product(range(n), repeat=k):
+                    idx = bound + free
+                    if len(set(idx)) != n:
+                        continue
+                    term = LP.const(sign(idx))
+                    for v, i in zip(vecs, bound):
+                        term = term * v.data[(i,)]
+                    total = total + term
+                data[free] = total
+            return Vec(qf.Table((n,) * (n - k), data))
+
+    def tensor_hook(args, kwargs):
+        return Vec(args[0]) if args and isinstance(args[0], qf.Table) else qf.Opaque("tensor")
+
+    def eps_hook(args, kwargs):
+        return Eps(args[0]) if args and isinstance(args[0], int) else qf.Opaque("eps")
+
+    def diagram_hook(args, kwargs):
+        edges = [tuple(a_) for a_ in args if isinstance(a_, (list, tuple)) and len(a_) == 2]
+        return Diagram(edges) if len(edges) == len(args) and edges else qf.Opaque("diagram")
+
+    it = qf.Interp(prog, None, {})
+    it.trig = True
+    it.hooks = {"affine_transform": affine, "Tensor": tensor_hook, "LeviCivitaTensor": eps_hook, "TensorDiagram": diagram_hook}
+    env = {params[0]: LP.sym("angle"), params[1]: qf.PointSym("a", 3)}
+    loc = fn.loc
+    try:
+        it.block(fn.node.body, env)
+    except qf._Done:
+        pass
+    except qf._Raise:
+        pass
+    except (qf.Unknown, NotPolynomial) as ex:
+        run.add("E18.orth", fn.short, "orthogonal, determinant 1, fixes the axis", UNDECIDED, f"not read: {str(ex)[:100]}", loc)
+        return 1
+    m = captured.get("matrix")
+    if not isinstance(m, qf.Table) or m.shape != (3, 3) or captured.get("offset") is not None:
+        why = getattr(m, "why", type(m).__name__)
+        run.add("E18.orth", fn.short, "orthogonal, determinant 1, fixes the axis", UNDECIDED,
+                f"the matrix handed to affine_transform is not read as a 3x3 table of polynomials ({str(why)[:80]}); the Rodrigues form is judged by E18.rot", loc)
+        return 1
+    rules = it.rules
+    problems = []
+    try:
+        for i in range(3):
+            for j in range(i, 3):
+                e = LP()
+                for k in range(3):
+                    e = e + m.data[(k, i)] * m.data[(k, j)]
+                if i == j:
+                    e = e - LP.const(1)
+                if not _zero_mod(e, rules):
+                    problems.append(f"(R^T R)[{i}][{j}] is not {1 if i == j else 0}")
+        axis_vec = [LP.sym(f"a{i}") for i in range(3)]
+        for i in range(3):
+            e = -axis_vec[i]
+            for k in range(3):
+                e = e + m.data[(i, k)] * axis_vec[k]
+            if not _zero_mod(e, rules):
+                problems.append(f"(R a)[{i}] is not a[{i}]: the axis is not fixed")
+        if not problems and not _zero_mod(qf._det_table(m) - LP.const(1), rules):
+            problems.append("det R is not 1")
+    except (qf.Unknown, NotPolynomial) as ex:
+        run.add("E18.orth", fn.short, "orthogonal, determinant 1, fixes the axis", UNDECIDED, f"not read: {str(ex)[:100]}", loc)
+        return 1
+    if problems:
+        run.add("E18.orth", fn.short, "orthogonal, determinant 1, fixes the axis", VIOLATION,
+                "; ".join(problems[:3]) + f" ({len(problems)} of 10 identities fail, modulo cos^2 + sin^2 = 1 and the norm of the axis)", loc)
+    else:
+        run.add("E18.orth", fn.short, "orthogonal, determinant 1, fixes the axis", PROVEN,
+                "R^T R = I, R a = a and det R = 1 as polynomial identities modulo cos^2 + sin^2 = 1 and |a|^2 = norm(a)^2", loc)
+    return 1
+
+
 def rule_all(run: Run, prog: Program) -> int:
-    return (rule_affine(run, prog) + rule_trans_scal(run, prog) + rule_rotation(run, prog) + rule_reflection(run, prog) + rule_frame(run, prog)
-            + rule_conics_delegate(run, prog))
+    return (rule_affine(run, prog) + rule_trans_scal(run, prog) + rule_rotation(run, prog) + rule_orthogonal(run, prog) + rule_reflection(run, prog)
+            + rule_frame(run, prog) + rule_conics_delegate(run, prog))
